@@ -190,7 +190,14 @@ func runC05Scan(t *testing.T, c RestCase) (*h.Violation, h.Info) {
 			}
 		}
 	}
-	// a different key must not open it, and must leave it alone
+	// a different key must not open it, and must leave it alone - also after the file has been
+	// opened with the right key by this very process (no key material may be remembered)
+	if rapid := len(c.Ops)%2 == 0; rapid {
+		if _, err := dbx.OpenDiscard(dbPath, inner); err != nil {
+			return h.V("reopen-succeeds", "reopen with the right key: %v", err), info
+		}
+		info.Class("foreign-key-after-a-proper-reopen")
+	}
 	before, _ := statFile(dbPath)
 	other, _ := newRealKEK()
 	if d2, err := dbx.OpenDiscard(dbPath, other); err == nil {
